@@ -748,6 +748,13 @@ void DenseMatrix::row_insert(const DenseMatrix &B, unsigned pos)
 {
     SYMENGINE_ASSERT(col_ == B.col_ and pos <= row_)
 
+    if (&B == this) {
+        // inserting a matrix into itself: work on a copy, the resize below
+        // would otherwise change B while it is being read
+        DenseMatrix C(B);
+        this->row_insert(C, pos);
+        return;
+    }
     unsigned row = row_, col = col_;
     this->resize(row_ + B.row_, col_);
 
@@ -768,6 +775,11 @@ void DenseMatrix::col_insert(const DenseMatrix &B, unsigned pos)
 {
     SYMENGINE_ASSERT(row_ == B.row_ and pos <= col_)
 
+    if (&B == this) {
+        DenseMatrix C(B);
+        this->col_insert(C, pos);
+        return;
+    }
     unsigned row = row_, col = col_;
     this->resize(row_, col_ + B.col_);
 
